@@ -65,6 +65,9 @@ func RunJobs(l *Loaded, jobs []*Job, workers int, cfg symx.Config, deadline time
 		}
 		jobs = keep
 	}
+	if v := os.Getenv("VERIF_VALIDATE_EVERY"); v != "" { // debugging: sample more paths
+		fmt.Sscan(v, &cfg.ValidateEvery)
+	}
 	if workers <= 0 {
 		workers = runtime.NumCPU()
 	}
